@@ -376,7 +376,10 @@ def check(ctx, run):  # noqa: F811
     import os as _os
     P_ = "pfhedge.instruments.primary."
     if ctx.tier == "thorough":
-        cast_histories_rule(ctx, run, "C17.R8x", 3, jobs=max(1, min(16, _os.cpu_count() or 1)))
+        jobs_ = max(1, min(16, _os.cpu_count() or 1))
+        cast_histories_rule(ctx, run, "C17.R8x", 3, jobs=jobs_)
+        if jobs_ >= 8:  # one level deeper on the one-buffer and the two-buffer instrument
+            cast_histories_rule(ctx, run, "C17.R8y", 4, classes=[P_ + "brownian.BrownianStock", P_ + "heston.HestonStock"], jobs=jobs_)
     else:
         cast_histories_rule(ctx, run, "C17.R8x", 2, classes=[P_ + "brownian.BrownianStock", P_ + "heston.HestonStock"])
     from ..ctors import rebinding_rule
